@@ -58,6 +58,7 @@ pub fn op_kind(op: &Op) -> &'static str {
         Op::ConfigObject { .. } => "ConfigObject",
         Op::Pass => "Pass",
         Op::FailFastNext => "FailFastNext",
+        Op::GeneratorOverride { .. } => "GeneratorOverride",
         Op::TamperOutput { .. } => "TamperOutput",
         Op::Wait { .. } => "Wait",
         Op::Faults { .. } => "Faults",
@@ -998,6 +999,9 @@ pub fn run_l1(scn: &C10Scenario, stats: &mut RunStats) -> Vec<Violation> {
             Op::FailFastNext => {
                 pending_fail_fast = true;
             }
+            Op::GeneratorOverride { name } => {
+                opts.generator_override = name.clone();
+            }
             Op::Faults { rules, renotify } => {
                 pending_faults = rules.clone();
                 pending_renotify = renotify.clone();
@@ -1681,6 +1685,7 @@ impl Property for C10 {
                     Op::ConfigObject { text } => format!("ConfigObject {}", text),
                     Op::Pass => "Pass".to_owned(),
                     Op::FailFastNext => "FailFastNext".to_owned(),
+                    Op::GeneratorOverride { name } => format!("GeneratorOverride {:?}", name),
                     Op::TamperOutput { output, source, .. } => format!("TamperOutput {} (source {})", output, source),
                     Op::Wait { ms } => format!("Wait {}ms", ms),
                     Op::Faults { rules, renotify } => format!("Faults {:?} renotify {:?}", rules, renotify),
